@@ -228,7 +228,9 @@ def run(ctx):
             combos = [("whfast", "manual"), ("ias15", "manual"), ("whfast_unsafe", "step"), ("mercurius", "interval")]
         else:
             combos = [(i, m) for i in ("whfast", "whfast_unsafe", "ias15", "mercurius", "saba", "saba_unsafe", "janus", "leapfrog", "eos", "bs", "trace")
-                      for m in ("manual", "step", "interval")]
+                      for m in ("manual", "step", "interval")
+                      # the cadence model of the automatic modes (five snapshots, one every two steps) holds for fixed-step schemes only
+                      if not (i in ("ias15", "bs") and m != "manual")]
         scen = build_scenarios(ctx, rebound, combos, workdir)
         tasks = []
         for si, sc in enumerate(scen):
